@@ -35,7 +35,7 @@ def tzdata_version():
 def names():
     import zoneinfo
     # same set pendulum.timezones() reports
-    return sorted(zoneinfo.available_timezones())
+    return sorted(n for n in zoneinfo.available_timezones() if n != "localtime")
 
 
 def _table(name, ymax):
@@ -117,12 +117,16 @@ def zone_lines(zone_names, ymax=YMAX_QUICK):
 
 def to_us(d: dt.datetime) -> int:
     """naive field value -> microseconds since 1970-01-01T00:00 on the same clock"""
-    x = d.replace(tzinfo=None) - EPOCH
-    return (x.days * 86400 + x.seconds) * US + x.microseconds
+    # fields only: subtracting a pendulum DateTime would go through its own (float) Interval machinery
+    days = dt.date(d.year, d.month, d.day).toordinal() - 719163
+    return ((days * 24 + d.hour) * 60 + d.minute) * 60 * US + d.second * US + d.microsecond
 
 
 def from_us(us: int) -> dt.datetime:
-    return EPOCH + dt.timedelta(microseconds=us)
+    # split by hand: timedelta(microseconds=<big int>) goes through floats and loses microseconds
+    days, rem = divmod(us, 86400 * US)
+    secs, micro = divmod(rem, US)
+    return EPOCH + dt.timedelta(days=days, seconds=secs, microseconds=micro)
 
 
 def off_us(d: dt.datetime) -> int:
